@@ -1275,6 +1275,51 @@ theorem qg_from_aggregate_smt (w : μ → μ → ℝ) (W : ι → ι → ℝ) (c
   simp_rw [hw]
   exact qg_from_aggregate W c γ sd
 
+/-- the sum over same-label pairs does not see the symmetrisation of the kernel -/
+theorem Qraw_symmetrise (K : ι → ι → ℝ) (c : ι → ν) :
+    Qraw (fun x y => (K x y + K y x) / 2) c = Qraw K c := by
+  have hT : (∑ x, ∑ y, if c x = c y then K y x else 0) = ∑ x, ∑ y, if c x = c y then K x y else 0 := by
+    rw [Finset.sum_comm]
+    apply Finset.sum_congr rfl; intro y _
+    apply Finset.sum_congr rfl; intro x _
+    by_cases h : c x = c y
+    · rw [if_pos h, if_pos h.symm]
+    · rw [if_neg h, if_neg (fun e => h e.symm)]
+  have hsplit : Qraw (fun x y => (K x y + K y x) / 2) c
+      = ((∑ x, ∑ y, if c x = c y then K x y else 0) + (∑ x, ∑ y, if c x = c y then K y x else 0)) / 2 := by
+    unfold Qraw
+    rw [← Finset.sum_add_distrib, Finset.sum_div]
+    apply Finset.sum_congr rfl; intro x _
+    rw [← Finset.sum_add_distrib, Finset.sum_div]
+    apply Finset.sum_congr rfl; intro y _
+    by_cases h : c x = c y <;> simp [h]
+  rw [hsplit, hT]
+  unfold Qraw
+  ring
+
+/-- link between the generic objective of `community_louvain` (symmetrised kernel `Bo`) and modularity:
+`Qraw Bo c / tot W = Q W c γ`; no hypothesis `tot W ≠ 0` is needed -/
+theorem Q_from_symmetrised_kernel (W : ι → ι → ℝ) (c : ι → ν) (γ : ℝ) (Bo : ι → ι → ℝ)
+    (hB : ∀ x y, Bo x y = ((W x y - γ * sum1 (W x) * csum W y / tot W)
+                          + (W y x - γ * sum1 (W y) * csum W x / tot W)) / 2) :
+    Qraw Bo c / tot W = Q W c γ := by
+  have : Bo = fun x y => ((fun x y => W x y - γ * sum1 (W x) * csum W y / tot W) x y
+                          + (fun x y => W x y - γ * sum1 (W x) * csum W y / tot W) y x) / 2 := by
+    funext x y; exact hB x y
+  rw [this, Qraw_symmetrise, Q_eq_Qraw]
+  ring
+
+/-- `lemma_Q_from_kernel(Bo, W, c, gamma, s, n)` in the shape of the SMT lemma instance: `s == tsum(W, n)`,
+`Bo[x][y] == (K(x,y) + K(y,x)) / 2` with `K(x,y) = W[x][y] - (gamma * (rsum(W,x) * csum(W,y))) / s`
+⟹ `QrawB(Bo, c, n) / s == Qmod(W, c, gamma, n)` (no `s != 0`) -/
+theorem Q_from_kernel_smt (Bo W : ι → ι → ℝ) (c : ι → ν) (γ s : ℝ) (hs : s = tot W)
+    (hB : ∀ x y, Bo x y = ((W x y - (γ * (sum1 (W x) * csum W y)) / s)
+                          + (W y x - (γ * (sum1 (W y) * csum W x)) / s)) / 2) :
+    Qraw Bo c / s = Q W c γ := by
+  subst hs
+  apply Q_from_symmetrised_kernel W c γ Bo
+  intro x y; rw [hB x y]; ring
+
 end aggcompose2
 
 -- ===== FOURTH BATCH: counting lemma instances (`lemma_flat_count`, `lemma_image_count`, `lemma_tsum_plus_transpose`) =====
@@ -1480,6 +1525,7 @@ end gencount
 --  all proved.)
 -- (third batch: aggregation composes — `agg_comp`, `tot_agg`, `Q_agg_comp`, `agg_compose_smt` for `lemma_agg_compose`: all proved.)
 -- (third batch, explicit divisor: `Qrawg_agg_comp`, `agg_compose_g_smt`, `qg_from_aggregate(_smt)`, `Qrawg_def_sum(_symm)`: all proved, any `sd`.)
+-- (symmetrised kernel of community_louvain: `Qraw_symmetrise`, `Q_from_symmetrised_kernel`, `Q_from_kernel_smt`: all proved, no `s != 0`.)
 -- (fourth batch: counting — `card_offdiag_enum(_int)`, `card_upper_enum(_nat)` for `lemma_flat_count`, `tot_indicator_of_injective_cells`
 --  for `lemma_image_count`, `tot_add_transpose` for `lemma_tsum_plus_transpose`: all proved; `Fintype.card ι` is the SMT `n`, hence `n ≥ 0`.)
 -- (fourth batch, continued: `tot_indicator_of_injective_cells_witness` (where-index form of `lemma_image_count`), `tot_add` for
